@@ -320,6 +320,13 @@ class HostGen:
 
     # ---- whole program ----------------------------------------------------------------------------
     def program(self, n_top: int, p_flush: float = 0.3) -> List[dict]:
+        for _ in range(50):
+            prog = self._program(n_top, p_flush)
+            if _well_formed(prog):
+                return prog
+        return [{"op": "array", "name": self.name("a"), "init": [1]}]
+
+    def _program(self, n_top: int, p_flush: float = 0.3) -> List[dict]:
         sc = Scope()
         prog: List[dict] = []
         # start with an initialised array so that there is something to compute with
@@ -333,3 +340,63 @@ class HostGen:
                 prog.append({"op": "flush"})
                 sc.regs = []      # registers are not kept across flushes (see known finding)
         return prog
+
+
+def _well_formed(prog) -> bool:
+    """Every referenced array / future / register handle is created by a statement that is part of the program (a generator
+    branch that gives up may leave names behind in the scope)."""
+    declared = set()
+    regs = set()
+    quts = set()
+
+    def decl(stmts):
+        for st in stmts:
+            if st["op"] == "array":
+                declared.add(st["name"])
+            elif st["op"] == "reg":
+                regs.add(st["name"])
+            elif st["op"] == "qalloc":
+                quts.add(st["q"])
+            elif st["op"] == "meas":
+                if st["to"]["kind"] == "new":
+                    declared.add(st["to"]["name"])
+                elif st["to"]["kind"] == "reg":
+                    regs.add(st["to"]["name"])
+            elif st["op"] == "foreach":
+                declared.add(st["var"])
+            if "body" in st:
+                decl(st["body"])
+    decl(prog)
+
+    def ok_val(v):
+        if not isinstance(v, dict):
+            return True
+        if v.get("kind") == "entry":
+            if v["array"] not in declared:
+                return False
+            i = v["idx"]
+            return not (isinstance(i, dict) and "at" in i and i["at"]["array"] not in declared)
+        if v.get("kind") == "fut":
+            return v["name"] in declared
+        if v.get("kind") == "reg":
+            return v["name"] in regs
+        return True
+
+    def walk(stmts):
+        for st in stmts:
+            for k in ("target", "other", "a", "b"):
+                if k in st and st[k] is not None and not ok_val(st[k]):
+                    return False
+            if st["op"] == "meas" and st["to"]["kind"] == "entry" and not ok_val(st["to"]):
+                return False
+            if st["op"] == "until" and not ok_val(st["exit"]["val"]):
+                return False
+            if st["op"] == "foreach" and st["array"] not in declared:
+                return False
+            for k in ("q", "c", "t"):
+                if k in st and st[k] not in quts:
+                    return False
+            if "body" in st and not walk(st["body"]):
+                return False
+        return True
+    return walk(prog)
